@@ -936,3 +936,7 @@ mod tests {
         assert_eq!(map.get(pn), Some(&100));
     }
 }
+
+#[cfg(all(aws_s2n_quic_verif, test))]
+#[path = "/verif/harness/core/pn_map.rs"]
+mod verif;
